@@ -71,6 +71,7 @@ func (ip *Interp) resetPath(w Work) {
 	ip.mapOrders = 0
 	ip.orderPolicy = -1
 	ip.deviated = false
+	ip.orderBaseline = false
 	ip.runeBytes = map[*sym.Term][]*sym.Term{}
 	ip.stubMemo = map[string]Str{}
 	ip.fs = newFS()
@@ -428,6 +429,13 @@ func registerVerifsym(ip *Interp) {
 	reg("And", func(ip *Interp, fr *frame, a []Value) Value { return ip.ctx.And(a[0].(*sym.Term), a[1].(*sym.Term)) })
 	reg("Not", func(ip *Interp, fr *frame, a []Value) Value { return ip.ctx.Not(a[0].(*sym.Term)) })
 	reg("Symbolic", func(ip *Interp, fr *frame, a []Value) Value { return ip.ctx.True })
+	// MapOrderBaseline(true): until switched off again every map range runs in
+	// insertion order without a choice - the reference run of a determinism
+	// (self-composition) harness; the other run explores the deviations.
+	reg("MapOrderBaseline", func(ip *Interp, fr *frame, a []Value) Value {
+		ip.orderBaseline = ip.truth(a[0])
+		return nil
+	})
 }
 
 var _ = types.Typ
